@@ -4,7 +4,7 @@ from __future__ import annotations
 import random
 
 from .. import gen, sem
-from ..snapshot import CLASS_NAMES, build, pg_from_json, pg_to_json, snap
+from ..snapshot import CLASS_NAMES, VIAS, build, build_case, pg_from_json, pg_to_json, snap
 
 LEVEL = "exploration"
 RULE = (
@@ -33,7 +33,7 @@ ANCHORS = [
 ]
 REQUIRED_ANCHORS = ANCHORS
 REQUIRED = ["eq_observed", "with_changes", "with_placeholder", "with_unspecified", "empty_graph", "isolated_atoms", "harness_crosscheck", "disconnected", "large_graphs"]
-VARIANTS = ("rebuild", "relabel_copy", "relabel_inplace", "rewrite", "all")
+VARIANTS = ("rebuild", "relabel_copy", "relabel_inplace", "rewrite", "all", "derived")
 
 
 def features(pg):
@@ -83,6 +83,9 @@ def _variant(pg, variant, brng, m):
         g2.relabel_atoms(m, copy=False)
     elif variant == "rewrite":
         g2 = build(pg, rng=brng, rewrite=True)
+    elif variant == "derived":  # the same abstract graph reached through subgraph / compose / removals / copies / JSON ...
+        via = VIAS[1 + brng.randrange(len(VIAS) - 1)]
+        g2, _ = build_case(sem.pg_relabel(pg, m), brng.randrange(1 << 30), via=via)
     else:
         g2 = build(pg, rng=brng, idmap=m, rewrite=True)
         ids = list(g2.atoms)
